@@ -533,3 +533,10 @@ T("tracing.fix_starred_imports",
   # a name of the starred module that is only reached dynamically
   "from math import *\nprint(floor(2.5), eval('ceil(2.5)'))\n",
   "from string import *\nprint(digits)\n")
+
+# near misses: programs on which a rule must NOT fire (a mutated pattern that starts matching them changes behaviour)
+T("fixes.redundant_enumerate",
+  "for i, _ in enumerate('abc'):\n    print(i)\n",
+  "print([i for i, _ in enumerate('ab')])\n")
+T("fixes.unused_zip_args",
+  "for a, b in zip([1, 2], 'xy'):\n    print(a, b)\n")
